@@ -58,6 +58,15 @@ func c05World(t *testing.T, run *h.Run) (int64, int64) {
 			o.budget = 2
 			return o
 		}(),
+		// two canary nodes; the creation of the second canary pod is rejected in the very sync that sees the first one restart
+		func() scOpt {
+			o := mk("S3-timed-auto-restart-and-failing-create", "auto", &w.Alpha{PodDev: []string{"restart:1"}, ERSFaults: []string{"reject:n2"}})
+			o.nodes = []string{"n1", "n2", "n3"}
+			o.eds = []w.EDSOpt{w.WithFrequency(10 * time.Second), w.WithCanary("2", 20*time.Second, 10*time.Second, "auto"), w.WithAuto(true, 1, true, 2)}
+			o.first = []w.Event{evb("setTemplate", edsKey, "B"), ev("R_eds", edsKey), ev("R_eds", edsKey), ev("R_ers", "ns/"+canaryRS), ev("gone", "ns/"+canaryRSName("A")+"-n1"), ev("ready", canaryPod)}
+			o.budget = 2
+			return o
+		}(),
 		mk("S3-timed-auto-commands", "auto", &w.Alpha{Kubectl: []string{"canary-pause", "canary-unpause", "canary-validate", "canary-fail"}}),
 		mk("S3-timed-fail-overtakes", "auto", &w.Alpha{MidCmds: []string{"canary-fail"}}),
 		// a failed canary whose rollback is interrupted between its two writes (the spec update is rejected or lost), or whose
